@@ -480,7 +480,8 @@ class DagGen:
       for _ in range(rng.choice([1, 1, 2, 2, 3, 4])):
         c = self.child(depth + 1)
         if (isinstance(c, B) and c.btype == 'TaggedValue'
-            and isinstance(c.kw.get('value'), Leaf) and c.kw['value'].value is fdl.NO_VALUE):
+            and ('value' not in c.kw or (isinstance(c.kw['value'], Leaf)
+                                         and c.kw['value'].value is fdl.NO_VALUE))):
           # a TaggedValue WITHOUT a value leaves a hole in *args (everything behind it is lost:
           # known finding of C14, probed there directly) - not part of the random workloads
           c = Leaf(0)
